@@ -1,0 +1,17 @@
+//go:build verif
+
+package gate
+
+import "go.minekube.com/gate/pkg/gate/config"
+
+// Verification hooks for property C36 (JSON Merge Patch). Thin forwarding only.
+
+func C36ApplyMergePatch(target, patch any) any { return applyMergePatch(target, patch) }
+
+func C36MergeConfigPatch(current *config.Config, patch string) (*config.Config, error) {
+	return mergeConfigPatch(current, patch)
+}
+
+func C36CanonicalConfigJSON(current *config.Config) ([]byte, error) {
+	return canonicalConfigJSON(current)
+}
